@@ -1,6 +1,6 @@
 """C18 - cluster mutex is exclusive; admin mutations serialise with gap-free versions (DESIGN 5/C18)."""
 from lib.vlib import jdump, Inconclusive
-from props._clustertv import split_scenarios, validate_scenarios
+from props._clustertv import split_scenarios, validate_scenarios, annotate_invocations
 
 PKG_CLUSTER = "pkg/cluster"
 PKG_API = "pkg/api"
@@ -89,6 +89,8 @@ def _tv_mutex(ctx):
     # members' Lock calls fail, which the contract always allows
     ctx.cov["mutex_unlock_errors"] = sum(1 for e in ev if e.get("ev") == "ret" and e.get("op") == "unlock" and not e.get("ok"))
     scen = split_scenarios(ev, keep=lambda e: e.get("ev") in ("inv", "ret", "stuck"))
+    for sc in scen:
+        annotate_invocations(sc["events"], ["ok"], default={"ok": False})
     if not scen:
         ctx.inconclusive("C18 mutex harness produced no scenarios")
     ctx.evals(len(scen))
@@ -201,6 +203,8 @@ def _tv_api(ctx):
     # 5xx replies ("error"): the contract lets any request fail that way without effect; they are counted
     ctx.cov["api_5xx_replies"] = sum(1 for e in ev if e.get("st") == "error")
     scen = split_scenarios(ev, keep=lambda e: e.get("ev") in ("inv", "ret", "final"))
+    for sc in scen:
+        annotate_invocations(sc["events"], ["st"], default={"st": "none"})
     ctx.evals(sum(1 for e in ev if e.get("ev") == "ret"))
 
     def on_reject(sc, bad_ev, tr, pos):
